@@ -116,6 +116,13 @@ NOTE = re.compile(r'<<\s*"NOTE",\s*"([^"]*)",\s*(-?\d+)\s*>>', re.S)
 STAT = re.compile(r"(\d+) states generated, (\d+) distinct states found")
 
 
+def _sum_notes(pairs):
+    d = {}
+    for a, b in pairs:
+        d[a] = d.get(a, 0) + int(b)
+    return d
+
+
 def tlc(module, cfg, env=None, workers=1, xmx="2g", timeout=900, extra=()):
     """Run TLC in spec/. Returns dict(out, rc, generated, distinct, rejects, ok)."""
     meta = tempfile.mkdtemp(prefix="tlc-", dir=_mk(os.path.join(BUILD, "tlc")))
@@ -143,7 +150,7 @@ def tlc(module, cfg, env=None, workers=1, xmx="2g", timeout=900, extra=()):
         "generated": int(m.group(1)) if m else 0,
         "distinct": int(m.group(2)) if m else 0,
         "rejects": [(int(a), b, c) for a, b, c in REJ.findall(out)],
-        "notes": {a: int(b) for a, b in NOTE.findall(out)},
+        "notes": _sum_notes(NOTE.findall(out)),
         "ok": "Model checking completed. No error has been found." in out and rc == 0,
     }
     return res
